@@ -68,13 +68,21 @@ def run_cli(args, timeout=60, exe=None, stack_kb=None):
         return {'rc': 'timeout', 'stdout': (e.stdout or b'').decode('utf-8', 'replace'), 'stderr': (e.stderr or b'').decode('utf-8', 'replace')}
 
 
-def check_files(files, order=None, as_dir=False, action='check', timeout=60):
+def check_files(files, order=None, as_dir=False, action='check', timeout=60, symlinks=()):
     """files: dict name -> bytes/str. Writes them into a scratch dir and runs `ironplcc <action>`.
+    symlinks: names that are stored elsewhere and stand in the directory as symbolic links.
     -> dict(rc, stdout, stderr, diags, ok_line)"""
     with Workdir() as w:
         d = os.path.join(w.path, 'src')
         paths = {}
         for name, data in files.items():
+            if name in symlinks:
+                real = w.write(os.path.join('shared', name.replace('/', '_')), data)
+                link = os.path.join(w.path, 'src', name)
+                os.makedirs(os.path.dirname(link), exist_ok=True)
+                os.symlink(real, link)
+                paths[name] = link
+                continue
             paths[name] = w.write(os.path.join('src', name), data)
         os.makedirs(d, exist_ok=True)
         if as_dir:
